@@ -13,7 +13,7 @@ instance keysDecEqExcept {ε α : Type} [DecidableEq ε] [DecidableEq α] : Deci
   | .error _, .ok _ => isFalse (by intro e; cases e)
 
 /-- all table entries, `CURSES_NAMES` first (the order `KEYMAP_PREFIXES` is computed in) -/
-def KeyTables.all (T : KeyTables) : List (List Nat × String) := T.curses ++ T.curtsies
+def KeyTables.all (T : KeyTables) : List (List Nat × List Nat) := T.curses ++ T.curtsies
 
 /-- `seq` is a key of one of the two tables -/
 def KeyTables.isKey (T : KeyTables) (seq : List Nat) : Bool :=
@@ -34,6 +34,8 @@ structure KeyTables.WF (T : KeyTables) : Prop where
   fits_utf8 : 4 ≤ T.maxSize
   /-- every sequence with a curses-style name has a curtsies name -/
   subset : ∀ e ∈ T.curses, (T.curtsies.lookup e.1).isSome
+  /-- the association list has no duplicate keys (it comes from a dict): every entry is what lookup finds -/
+  curtsies_lookup : ∀ e ∈ T.curtsies, T.curtsies.lookup e.1 = some e.2
   /-- a one-byte member of KEYMAP_PREFIXES (ESC) is itself a key -/
   esc_is_key : ∀ p ∈ T.prefixes, p.length = 1 → T.isKey p = true
 
@@ -191,8 +193,8 @@ theorem findKeyLoop_lossless (enc : Enc) (mode : KeyMode) (cur un : List Nat) (k
 
 /-- `k` is the name the tables give `u` in this naming mode (bytes mode: the bytes themselves) -/
 def tableName (T : KeyTables) (u : List Nat) : KeyMode → KeyVal → Prop
-  | .curtsies, k => ∀ n, T.curtsies.lookup u = some n → k = .text (cpsOf n)
-  | .curses, k => ∀ n, T.curses.lookup u = some n → k = .text (cpsOf n)
+  | .curtsies, k => ∀ n, T.curtsies.lookup u = some n → k = .text n
+  | .curses, k => ∀ n, T.curses.lookup u = some n → k = .text n
   | .bytes, k => k = .bytes u
 
 theorem isKey_entry (hT : T.WF) {u : List Nat} (hu : T.isKey u = true) :
@@ -213,7 +215,7 @@ theorem keyName_isKey (hT : T.WF) {u : List Nat} (hu : T.isKey u = true) (enc : 
   | curtsies =>
     cases h : T.curtsies.lookup u with
     | some n =>
-      refine ⟨.text (cpsOf n), by simp [keyName, h], ?_⟩
+      refine ⟨.text n, by simp [keyName, h], ?_⟩
       intro n' hn'; rw [h] at hn'; cases hn'; rfl
     | none =>
       exfalso
@@ -224,7 +226,7 @@ theorem keyName_isKey (hT : T.WF) {u : List Nat} (hu : T.isKey u = true) (enc : 
   | curses =>
     cases h : T.curses.lookup u with
     | some n =>
-      refine ⟨.text (cpsOf n), by simp [keyName, h], ?_⟩
+      refine ⟨.text n, by simp [keyName, h], ?_⟩
       intro n' hn'; rw [h] at hn'; cases hn'; rfl
     | none =>
       have hv : ∀ k, tableName T u .curses k := by intro k n hn; rw [h] at hn; cases hn
